@@ -972,7 +972,7 @@ func AccessPath(v ssa.Value) (string, bool) {
 	case *ssa.Extract:
 		switch t := x.Tuple.(type) {
 		case *ssa.Call:
-			return fmt.Sprintf("result%d:%s", x.Index, CalleeName(t.Common())), true
+			return fmt.Sprintf("result%d:%s", x.Index, pathCallee(CalleeName(t.Common()))), true
 		case *ssa.Lookup:
 			if x.Index == 0 {
 				b, ok := AccessPath(t.X)
@@ -1030,7 +1030,7 @@ func AccessPath(v ssa.Value) (string, bool) {
 	case *ssa.Slice:
 		return AccessPath(x.X)
 	case *ssa.Call:
-		return "result:" + CalleeName(x.Common()), true
+		return "result:" + pathCallee(CalleeName(x.Common())), true
 	case *ssa.MakeChan:
 		return "makechan", true
 	case *ssa.MakeMap:
@@ -1882,4 +1882,14 @@ func derefT1(t types.Type) types.Type {
 		return pt.Elem()
 	}
 	return t
+}
+
+// pathCallee: in access paths a constructor and its context-taking twin name the same
+// role (http.NewRequest is NewRequestWithContext with context.Background()).
+func pathCallee(name string) string {
+	switch name {
+	case "net/http.NewRequestWithContext":
+		return "net/http.NewRequest"
+	}
+	return name
 }
